@@ -40,16 +40,20 @@ func VC03_Decision() {
 	L := rt.Param("L")
 	routeKind := rt.Choice("route", 4)   // 0 none, 1 own only, 2 own+next, 3 next only
 	toKind := rt.Choice("tohost", 4)     // 0 exact static route, 1 wildcard, 2 only default, 3 none
-	ruriKind := rt.Choice("ruri", 7)     // 0 literal, 1 regex-only, 2 user@host name, 3 urn, 4 tel, 5 listener addr:port, 6 foreign
+	ruriKind := rt.Choice("ruri", 8)     // 0 literal, 1 regex-only, 2 user@host name, 3 urn, 4 tel, 5 listener addr:port, 6 foreign, 7 another user at the named host
 	keep := rt.Bool("keep-next-hop")
 	routes := [][3]string{{"udp", "static.example.org", "10.0.5.1:5071"}, {"tcp", "*.wild.example.org", "10.0.5.2"}}
 	if toKind == 2 {
 		routes = append(routes, [3]string{"udp", "default", "10.0.5.3:5073"})
 	}
-	w := newWorld(worldOpts{name: c03Names, nBackends: 2, keepNextHop: keep, routes: routes})
+	w := newWorld(worldOpts{name: c03Names, nBackends: 2, keepNextHop: keep, routes: routes, hosts: map[string]string{"proxy.example.com": wListenAddr}})
 	// Route
 	head := "Via: SIP/2.0/UDP 10.0.2.2:5060;branch=z9hG4bKa\r\n"
 	own := "<sip:" + wListenAddr + ":" + itoa(wListenPort) + ";lr>"
+	if routeKind == 1 || routeKind == 2 {
+		// the proxy's own entry by address, by configured alias, or by alias without port
+		own = []string{own, "<sip:proxy.example.com:" + itoa(wListenPort) + ";lr>", "<sip:proxy.example.com;lr>"}[rt.Choice("own-form", 3)]
+	}
 	nextDest := ""
 	nextSupported := true
 	next := ""
@@ -110,6 +114,9 @@ func VC03_Decision() {
 		user, host = rt.Str("ruser", clsUser, 1, L), wListenAddr
 	case 6:
 		user, host = rt.Str("ruser", clsUser, 1, L), rt.Str("fhost", "[a-z]", 1, L)+".foreign.example.net"
+	case 7:
+		user, host = rt.Str("ruser", clsUser, 1, L), "named.example.com"
+		rt.Assume(user != "bob")
 	}
 	if sip {
 		ruri = "sip:" + user + "@" + host
